@@ -560,6 +560,21 @@ def _run(ctx, kind, fam, ctl):
     updated = False
     wrapper = [None]
     ondemand = {}
+    handed_out = []     # (returned object, dense copy at the time it was returned, description)
+
+    def remember(obj, desc):
+        # results handed out earlier must not be altered by later calls on the same assembler object
+        if sp.issparse(obj) or isinstance(obj, np.ndarray):
+            handed_out.append((obj, np.array(todense(obj), copy=True), desc))
+            del handed_out[:-3]
+
+    def check_handed_out():
+        for obj, snap, desc in handed_out:
+            now = todense(obj)
+            ok = now.shape == snap.shape and np.array_equal(now, snap)
+            ctx.check(ok, 'earlier-result-altered', lambda: '%s: a matrix/vector returned earlier (%s) was changed by a later call on the '
+                      'same assembler object (max change %.3g)' % (kind, desc, np.abs(now - snap).max() if now.shape == snap.shape and now.size else -1),
+                      sig('aliasing'))
     sig = lambda what, **kw: dict(what=what, kind=kind, **kw)     # noqa
     nops = 3 + o.choice(10)
     tolrel = 1e-13
@@ -682,6 +697,8 @@ def _run(ctx, kind, fam, ctl):
             A = ctx.call('assemble_entries', assemble.assemble_entries, asm, symmetric=symmetric, format=fmt, layout=layout)
             if A is RAISED():
                 return
+            check_handed_out()
+            remember(A, 'assemble_entries(symmetric=%s, %s, %s)' % (symmetric, fmt, layout))
             if fam != 'taskfail':
                 A1 = one_thread(assemble.assemble_entries, asm, symmetric=symmetric, format=fmt, layout=layout)
                 cmp_threads(A, A1, 'assemble_entries(symmetric=%s, %s, %s)' % (symmetric, fmt, layout))
@@ -839,6 +856,8 @@ def _run(ctx, kind, fam, ctl):
                 A = ctx.call('Assembler.assemble', W.assemble, format=wfmt, f=fobj)
             if A is RAISED():
                 return
+            check_handed_out()
+            remember(A, 'Assembler.assemble(symmetric=%s, %s)' % (wsym, wfmt))
             # the long-lived object follows the model too
             r = ctx.call('update', asm.update, f=case.fields[st['f']])
             if r is RAISED():
@@ -903,6 +922,7 @@ def _run(ctx, kind, fam, ctl):
             cmp_close(V, want, 'ondemand-differs', 'on-demand assembler with bbox %s differs on entries inside the box' % (bbox,))
             ctx.count('op.ondemand')
             continue
+    check_handed_out()
     ctx.nontrivial = bool(ctl.nontrivial or updated)
     ctx.state = (kind, tuple(map(tuple, case.desc['degs_ncells'])), case.desc['knots'], case.desc['geo'])
     ctx.sim_time = float(ctl.calls)
